@@ -55,6 +55,9 @@ func genC18(r *Rnd, t Tier) *Case {
 		spec.Method = pick(r, "GET", "POST", "PUT", "DELETE")
 		spec.Body = r.Intn(7)
 		spec.BodySize = pick(r, 0, 1, 17, 1024, 4096, 65536)
+		if r.P(0.0008) {
+			spec.BodySize = pick(r, 1<<20+1, 9<<20+5, 17<<20+3) // "every body size": a few large bodies (kept rare: each costs tens of milliseconds)
+		}
 		if spec.Body == BodyNil || spec.Body == BodyEmpty {
 			spec.BodySize = 0
 		}
